@@ -10,7 +10,9 @@ package main
 // ce.NewCTEDecoder behind ce.NewRules into a Recorder; the elements must come
 // back bit-exactly. NaN elements are compared by kind only (quiet/signalling):
 // CTE text has exactly the two spellings "nan" and "snan", so no setting can
-// carry a payload or a sign. The Coq model (CE.Model.CteArrFmt) is evaluated on
+// carry a payload or a sign. Besides boundary, special and random elements every
+// float kind gets an exponent sweep (all binary exponents x mantissa shapes, see
+// c25ExponentSweep). The Coq model (CE.Model.CteArrFmt) is evaluated on
 // the same inputs: encoder text, decoder result, and the strconv facts the
 // decimal-float theorem assumes.
 
@@ -170,10 +172,22 @@ func c25Str(s string) string {
 	return "(s2b \"" + strings.ReplaceAll(s, "\"", "\"\"") + "\")"
 }
 
-// array data as a Coq term: length and little-endian value
+// array data as a Coq term: length and little-endian value (long data in
+// pieces of 16 bytes: le_encode divides the whole number once per byte)
 func c25DataTerm(b []byte) string {
 	if len(b) == 0 {
 		return "[]"
+	}
+	if len(b) > 16 {
+		parts := []string{}
+		for i := 0; i < len(b); i += 16 {
+			j := i + 16
+			if j > len(b) {
+				j = len(b)
+			}
+			parts = append(parts, c25DataTerm(b[i:j]))
+		}
+		return "(" + strings.Join(parts, " ++ ") + ")"
 	}
 	r := make([]byte, len(b))
 	for i := range b {
@@ -440,21 +454,130 @@ func c25FromFloat(k *c25Kind, v float64) uint64 {
 }
 
 type c25Set struct {
-	name string
-	pats []uint64
+	name  string
+	pats  []uint64
+	sweep bool // member of the exponent sweep (see c25ExponentSweep)
+}
+
+// ---------------------------------------------------------------------------
+// exponent sweep: every binary exponent a float kind has, crossed with mantissa
+// shapes.
+//
+// The hexadecimal element writer (Writer.WriteFloatHexNoPrefix) edits the text
+// strconv produces ("0x1.8p+100": prefix cut, sign moved, a zero exponent
+// "p+00" dropped, integer values below 2^63 written as integers), and the other
+// settings go through fmt verbs whose output changes shape with the magnitude
+// (exponent sign, one to four exponent digits, e-notation thresholds). Which
+// branch an element takes is decided by its exponent and by whether it has
+// fraction bits, so the sweep enumerates ALL exponents of the kind (normal:
+// every biased exponent 1..max-1; subnormal: every position of the leading
+// mantissa bit) and for each of them one element per mantissa shape:
+//   pow2   1.0 x 2^e              (integer path for 0 <= e <= 62, "1p+NN" otherwise)
+//   short  1.1/1.01/1.11/1.001... (one hex digit of fraction)
+//   ulp    1 + one unit in the last place (longest fraction)
+//   ones   all fraction bits set
+//   random random fraction bits
+// with a random sign (thorough: both signs). Elements are grouped in exponent
+// order into arrays of c25SweepArrayLen elements.
+
+const c25SweepArrayLen = 48
+
+var c25SweepShapes = []string{"pow2", "short", "ulp", "ones", "random"}
+
+// mantissa (fraction) bits and largest biased exponent of a finite element
+func c25FloatLayout(k *c25Kind) (mant uint, maxBiased uint64) {
+	switch k.w {
+	case 2:
+		return 7, 254
+	case 4:
+		return 23, 254
+	}
+	return 52, 2046
+}
+
+// fraction of n bits (the bits below the leading one) for a shape
+func (c *Ctx) c25ShapeFrac(shape string, n uint) uint64 {
+	if n == 0 {
+		return 0
+	}
+	all := uint64(1)<<n - 1
+	switch shape {
+	case "short":
+		top := uint(3)
+		if n < top {
+			top = n
+		}
+		return (1 + uint64(c.Rng.Intn(1<<top-1))) << (n - top)
+	case "ulp":
+		return 1
+	case "ones":
+		return all
+	case "random":
+		return c.Rng.Uint64() & all
+	}
+	return 0 // pow2
+}
+
+// all elements of one shape in ascending order of magnitude: subnormals by
+// position of the leading bit, then every normal exponent
+func (c *Ctx) c25SweepPats(k *c25Kind, shape string) []uint64 {
+	mant, maxBiased := c25FloatLayout(k)
+	pats := []uint64{}
+	for j := uint(0); j < mant; j++ {
+		pats = append(pats, uint64(1)<<j|c.c25ShapeFrac(shape, j))
+	}
+	for be := uint64(1); be <= maxBiased; be++ {
+		pats = append(pats, be<<mant|c.c25ShapeFrac(shape, mant))
+	}
+	return pats
+}
+
+func (c *Ctx) c25ExponentSweep(k *c25Kind) []c25Set {
+	if k.class != "float" {
+		return nil
+	}
+	signBit := uint64(1) << uint(k.w*8-1)
+	sets := []c25Set{}
+	for _, shape := range c25SweepShapes {
+		pats := c.c25SweepPats(k, shape)
+		variants := [][]uint64{make([]uint64, len(pats))}
+		for i, p := range pats {
+			if c.Rng.Intn(2) == 0 {
+				p |= signBit
+			}
+			variants[0][i] = p
+		}
+		if c.Thorough() {
+			other := make([]uint64, len(pats))
+			for i, p := range variants[0] {
+				other[i] = p ^ signBit
+			}
+			variants = append(variants, other)
+		}
+		for _, v := range variants {
+			for i := 0; i < len(v); i += c25SweepArrayLen {
+				j := i + c25SweepArrayLen
+				if j > len(v) {
+					j = len(v)
+				}
+				sets = append(sets, c25Set{name: "exponent-sweep/" + shape, pats: v[i:j], sweep: true})
+			}
+		}
+	}
+	return sets
 }
 
 func (c *Ctx) c25Sets(k *c25Kind) []c25Set {
-	sets := []c25Set{{"boundary", c25Boundary(k)}, {"empty", nil}}
+	sets := []c25Set{{name: "boundary", pats: c25Boundary(k)}, {name: "empty"}}
 	if k.class == "float" {
-		sets = append(sets, c25Set{"special", c25Specials(k)})
+		sets = append(sets, c25Set{name: "special", pats: c25Specials(k)})
 		neg := []uint64{}
 		for _, p := range c25Boundary(k) {
 			neg = append(neg, p^(uint64(1)<<uint(k.w*8-1)))
 		}
-		sets = append(sets, c25Set{"negated", neg})
+		sets = append(sets, c25Set{name: "negated", pats: neg})
 	} else {
-		sets = append(sets, c25Set{"single", []uint64{c.c25RandPat(k)}})
+		sets = append(sets, c25Set{name: "single", pats: []uint64{c.c25RandPat(k)}})
 	}
 	for i := 0; i < c.Pick(3, 40); i++ {
 		n := 1 + c.Rng.Intn(c.Pick(6, 24))
@@ -462,9 +585,9 @@ func (c *Ctx) c25Sets(k *c25Kind) []c25Set {
 		for j := range p {
 			p[j] = c.c25RandPat(k)
 		}
-		sets = append(sets, c25Set{"random", p})
+		sets = append(sets, c25Set{name: "random", pats: p})
 	}
-	return sets
+	return append(sets, c.c25ExponentSweep(k)...)
 }
 
 // ---------------------------------------------------------------------------
@@ -685,6 +808,11 @@ func c25Runs(text string) []string {
 
 // strconv.ParseFloat table for the element texts of an array text
 func c25PTab(text string) string {
+	if lt := strings.ToLower(text); strings.HasPrefix(lt, "@f16x[") || strings.HasPrefix(lt, "@f32x[") || strings.HasPrefix(lt, "@f64x[") {
+		// hexadecimal float array: parsed by the decoder's own hex float reader,
+		// which the model has concretely (strconv.ParseFloat is not involved)
+		return "[]"
+	}
 	seen := map[string]bool{}
 	items := []string{}
 	for _, run := range c25Runs(text) {
@@ -711,7 +839,13 @@ func c25PTab(text string) string {
 }
 
 func (c *Ctx) c25AddEnc(cf *caseFile, k *c25Kind, f configuration.CTENumericFormat, data []byte, text string, panicked bool, how string) {
-	cf.Add(cApp("EncCase", k.name, cNi(int(f)), c25DataTerm(data), c25GTab(k, data), c25Outcome(panicked, true, c25Str(text))),
+	gtab := c25GTab(k, data)
+	if f == configuration.CTEEncodingFormatHexadecimal {
+		// float elements go through WriteFloatHexNoPrefix, which the model has
+		// concretely (no strconv 'g' text involved)
+		gtab = "[]"
+	}
+	cf.Add(cApp("EncCase", k.name, cNi(int(f)), c25DataTerm(data), gtab, c25Outcome(panicked, true, c25Str(text))),
 		fmt.Sprintf("encode %s %s %s data=%s -> %q panic=%v", how, k.label, c25FormatName(f), hex.EncodeToString(data), c25Clip(text), panicked))
 }
 
@@ -733,11 +867,17 @@ func (c *Ctx) c25AddDec(cf *caseFile, text string) (k *c25Kind, data []byte, ok 
 func runC25(c *Ctx) {
 	c.Rep.Rule = "11 numeric array kinds x 8 format settings (decimal, binary, octal, hexadecimal, each optionally zero-filled) x element sets " +
 		"(empty; boundary values; for floats: infinities and quiet/signalling/negative/payload NaNs, and every boundary value negated; random sets mixing small, " +
-		"near-power-of-two, integer-valued, subnormal, short-fraction and arbitrary bit patterns), each encoded one-shot and in the chunked form with random chunk/data splits; " +
+		"near-power-of-two, integer-valued, subnormal, short-fraction and arbitrary bit patterns; for floats an exponent sweep: every binary exponent of the kind, normal and subnormal, " +
+		"x mantissa shapes power-of-two / one-hex-digit fraction / one ulp / all ones / random, random sign, in arrays of 48), each encoded one-shot and in the chunked form with random chunk/data splits; " +
 		"an evaluation is non-trivial when the array is non-empty; distinct = distinct (kind, setting, data, chunk plan); " +
 		"plus decoder-only array texts (mutated spellings, prefixes, underscores, white space, range and rounding boundaries) for the model correspondence"
 	cf := c.Cases("ctearrfmt", "CE.Model.CteArrFmt", "ctearrfmt_case", "ctearrfmt_case_ok")
 	cf.preamble = "Import String.StringSyntax. Open Scope string_scope. Open Scope N_scope."
+
+	// the exponent sweep has its own case files: its arrays are long, so fewer per file
+	cfSweep := c.Cases("ctearrfmtsweep", "CE.Model.CteArrFmt", "ctearrfmt_case", "ctearrfmt_case_ok")
+	cfSweep.preamble = cf.preamble
+	cfSweep.perFile = 60
 
 	for _, k := range c25Kinds {
 		sets := c.c25Sets(k)
@@ -762,6 +902,31 @@ func runC25(c *Ctx) {
 						c.Fail(Replay{Kind: "roundtrip", Key: c25Key(k, fm.f),
 							Input:  map[string]string{"kind": k.label, "format": strconv.Itoa(int(fm.f)), "data_hex": hex.EncodeToString(data), "plan": plan.String(), "chunked": strconv.FormatBool(chunked)},
 							Expect: "decodes to the same " + k.label + " elements " + hex.EncodeToString(data), Got: got})
+					}
+					if set.sweep {
+						// The oracle above ran on every array of the sweep under every setting. The
+						// model correspondence (one-shot text and its decoding) is taken on a random
+						// sample of the arrays in the quick tier (parsing the long texts dominates the
+						// cost of a case file) and on all of them in the thorough tier: under the
+						// hexadecimal setting (element writer and reader are concrete in the model)
+						// and, less often, under the decimal setting (strconv tables).
+						c.Dist(fmt.Sprintf("exponent-sweep/%s/%s/%s", k.label, fm.name, map[bool]string{true: "ok", false: "FAIL"}[ok]))
+						oneIn := 0
+						switch fm.f {
+						case configuration.CTEEncodingFormatHexadecimal:
+							oneIn = c.Pick(map[int]int{2: 2, 4: 2, 8: 6}[k.w], 1)
+						case configuration.CTEEncodingFormatDecimal:
+							oneIn = c.Pick(map[int]int{2: 6, 4: 6, 8: 18}[k.w], 2)
+						}
+						if !chunked && oneIn > 0 && c.Rng.Intn(oneIn) == 0 {
+							c.Dist("exponent-sweep/compared-with-model/" + fm.name)
+							txt, panicked, _ := c25Encode(k, fm.f, data, nil)
+							c.c25AddEnc(cfSweep, k, fm.f, data, txt, panicked, how)
+							if !panicked {
+								c.c25AddDec(cfSweep, txt)
+							}
+						}
+						continue
 					}
 					// correspondence: encoder text (both forms), decoder result on that text (once)
 					txt, panicked, _ := c25Encode(k, fm.f, data, plan)
